@@ -1,5 +1,5 @@
 ENGINES = [
-    {"name": "E1-enum", "path": "/verif/cmd, /verif/internal", "serves_properties": ["C12"],
+    {"name": "E1-enum", "path": "/verif/cmd, /verif/internal", "serves_properties": ["C12", "C16", "C18"],
      "kind_free_text": "bounded-exhaustive enumerator over explicit alphabets, every case executed on the real code and judged by a Go reference model"},
 ]
 NOTES = "All checks: ./run.sh <id> quick|thorough rebuilds the harness against /repo's working tree (replace directive) and rewrites evidence/<id>.json. known_findings.json is read-only at run time."
@@ -9,4 +9,17 @@ CHECKS["C12"] = dict(
     technique="bounded-exhaustive enumeration (all strings <= N over a 12-symbol alphabet; all spelling pairs of small path keys) against a reference normalizer",
     text="Every string up to length 6 (quick) / 8 (thorough, 4.7e8 strings) over an alphabet holding '%', hex digits of both cases, a non-hex letter, reserved, unreserved and non-ASCII bytes is run through uri.NormalizeEscapedPath and compared with an RFC 3986 reference: ok flag, output, idempotence, octet equality, no panic. The parser half enumerates all pairs of equivalent spellings of path keys of <= 3/4 atoms (must be duplicates) and one-atom-apart keys (must not). Exhaustive within the bound; nothing is claimed above it.",
     note="Trusted: the 30-line reference normalizer and net/url.PathUnescape. Strings longer than the bound or over other bytes are not explored; the function is byte-local (state = position only), which is why a small alphabet with one symbol per branch is adequate.",
+)
+
+CHECKS["C16"] = dict(
+    category="exploration", engine="E1-enum",
+    technique="bounded-exhaustive enumeration of (document, pointer) pairs against an independent RFC 6901 evaluator (node identity)",
+    text="All tree shapes of depth <= 3 with member names rotated through 21 adversarial names (empty, numeric-looking, ~, /, ~0, ~1, %, %25, ...) in JSON and YAML spelling, all sibling pairs of names; for every node its pointer in plain and four fragment encodings, every single-character edit of it and all short strings over the edit alphabet. jsonpointer.Resolve must return the identical *yaml.Node the reference designates, or an error where the reference has none; never a different node, never a panic.",
+    note="Trusted: the reference evaluator in cmd/c16 and go-faster/yaml as document parser. A '~' not followed by 0/1 is not a pointer under the ABNF; ogen's lenient reading is outside the oracle (counted) but a node it returns must be the literal reading's node. YAML aliases/merge keys are not generated.",
+)
+CHECKS["C18"] = dict(
+    category="exploration", engine="E1-enum",
+    technique="all ordered pairs of an enumerated pool of JSON texts through json.Equal against an exact reference value model; all truncations/extensions for the malformed half",
+    text="Every ordered pair of ~2k (quick) / ~5k (thorough) JSON texts (number spellings incl. beyond 2^53 and huge exponents, escaped vs literal strings, permuted / padded composites up to depth 2) is compared with json.Equal and with an exact reference (decimal numbers, sorted members, UTF-16 units). Agreement on all pairs implies the equivalence laws on the set; reflexivity/symmetry/transitivity counterexamples are extracted when it fails. Every proper prefix and 18 one-byte extensions of each text must never compare equal without error. Duplicate-enum detection in jsonschema is checked on all pairs of the leaf pool.",
+    note="Trusted: internal/jsonref (strict RFC 8259 parser), cross-checked for well-formedness against encoding/json. Objects with duplicate member names and lone surrogates are outside the domain.",
 )
